@@ -13,6 +13,7 @@ ops
 An outcome is ["ok", class-or-"dict"-or-null, canonical JSON restricted to the input's keys]
 or ["exc", exception class, class the error names, property the error names] or ["none"].
 """
+import collections
 import functools
 import inspect
 import io
@@ -21,6 +22,7 @@ import os
 import shutil
 import sys
 import tempfile
+import types as types_mod
 
 TAXII = "taxii" in sys.argv[1:]
 if TAXII:
@@ -140,6 +142,37 @@ def versions_of(k):
     return sorted(set(out))
 
 
+def module_version(k):
+    m = getattr(k, "__module__", "") or ""
+    if m.startswith("stix2.v20"):
+        return "2.0"
+    if m.startswith("stix2.v21"):
+        return "2.1"
+    return None
+
+
+def nested_versions(o, depth=0):
+    """spec versions (by defining package) of every library object embedded in o, at any depth"""
+    out = set()
+    if depth > 12:
+        return out
+    if isinstance(o, _STIXBase):
+        vals = list(getattr(o, "_inner", {}).values())
+    elif isinstance(o, dict):
+        vals = list(o.values())
+    elif isinstance(o, (list, tuple)):
+        vals = list(o)
+    else:
+        return out
+    for x in vals:
+        if isinstance(x, _STIXBase):
+            mv = module_version(type(x))
+            if mv:
+                out.add(mv)
+        out |= nested_versions(x, depth + 1)
+    return out
+
+
 def ok(o, inp, with_class=True):
     js = restrict(as_json(o), inp)
     if isinstance(o, _STIXBase):
@@ -148,7 +181,15 @@ def ok(o, inp, with_class=True):
         c = "dict"
     else:
         c = "other:" + type(o).__name__
-    return ["ok", c if with_class else None, canon(js), versions_of(type(o)) if isinstance(o, _STIXBase) else None]
+    vers = versions_of(type(o)) if isinstance(o, _STIXBase) else None
+    if isinstance(o, _STIXBase):
+        top = module_version(type(o)) or (vers[0] if vers and len(vers) == 1 else None)
+        other = sorted(v for v in nested_versions(o) if top and v != top)
+        if other:
+            # an embedded object (extension, observable, marking, ...) of another spec version than the object holding it
+            c = c + " +embedded objects of " + ",".join(other)
+            vers = ["mixed: %s holding objects of %s" % (top, ",".join(other))]
+    return ["ok", c if with_class else None, canon(js), vers]
 
 
 def exc(e, inp=None):
@@ -297,6 +338,10 @@ def run_entry(name, cfg, d):
                 data = json.dumps(d).encode("utf-8")
             elif form == "file":
                 data = io.StringIO(json.dumps(d))
+            elif form == "mapping":
+                data = types_mod.MappingProxyType(d)
+            elif form == "userdict":
+                data = collections.UserDict(d)
             elif form == "object":
                 # the same content as a library object (built with the version the library detects)
                 try:
@@ -371,6 +416,10 @@ def run_entry(name, cfg, d):
             return [d]
         if wrap == "str":
             return json.dumps(d)
+        if form == "mapping":
+            return types_mod.MappingProxyType(d)
+        if form == "userdict":
+            return collections.UserDict(d)
         return d
 
     ck = kw(cfg, ("allow_custom",))
@@ -379,7 +428,7 @@ def run_entry(name, cfg, d):
              "memory.MemorySink.__init__": MemorySink}[name]
 
         def f():
-            s = C(stix_data=[d] if wrap is None else payload(), **ck, **vk)
+            s = C(stix_data=[payload()] if wrap is None else payload(), **ck, **vk)
             if C is MemorySink:
                 return mem_saved(s, d)
             return single(s.get(oid), d)
